@@ -1,5 +1,6 @@
 import Ucan.Props.C03
 import Ucan.Props.C04
+import Ucan.Lemmas.ArgsOrder
 /-!
 # C05 — every chain that satisfies the delegation rules is accepted
 -/
@@ -38,6 +39,22 @@ theorem C05_irrelevant_fields (ld : C → Option (Dlg D)) (now : Int) (inv : Inv
     (a : Option D) (n m c i : X) :
     executionAllowed ld now { inv with aud := a, nonce := n, metadata := m, cause := c, iat := i } args =
       executionAllowed ld now inv args := rfl
+
+/-- C05: the verdict does not depend on the ORDER in which the invoker (or the argument hook) supplied the arguments: the
+    policies are matched on `Args.ToIPLD`, one map with sorted keys, which is the same node for every order of supply
+    (distinct keys: `args.Add` refuses a key that is already present) -/
+theorem C05_args_supply_order_irrelevant (ld : C → Option (Dlg D)) (now : Int) (inv : Inv D C X)
+    (kvs kvs' : List (Bytes × Node)) (h : kvs.Perm kvs') (nd : (kvs.map (·.1)).Nodup) :
+    executionAllowed ld now inv (Immut.argsNode kvs) = executionAllowed ld now inv (Immut.argsNode kvs') := by
+  rw [Immut.argsNode_perm h nd]
+
+/-- … and a statement over the whole argument map sees the keys in sorted order -/
+theorem C05_args_node_sorted (kvs : List (Bytes × Node)) :
+    ∃ out, Immut.argsNode kvs = .map out ∧ (out.map (·.1)).Pairwise (fun a b => Immut.bytesLe a b = true) :=
+  Immut.argsNode_sorted kvs
+
+example : Immut.argsNode [([0x62], .int 2), ([0x61], .int 1)] = .map [([0x61], .int 1), ([0x62], .int 2)] := by
+  simp [Immut.argsNode, Immut.sortKeys, Immut.insertSorted, Immut.bytesLe, Node.lookup]
 
 /-- every loadable proof list loads (so "all loadable" is a hypothesis that can be met) -/
 theorem C05_loadable (ld : C → Option (Dlg D)) (cs : List C) (h : ∀ c ∈ cs, (ld c).isSome) :
